@@ -108,6 +108,7 @@ func (i *vectorAggIterator) Next(r *Step) bool {
 			Set:  g.metric,
 		})
 	}
+	r.Samples = verifOrderSamples(r.Samples)
 
 	return true
 }
